@@ -53,6 +53,17 @@ fn main() {
         props::c18::worker(seed, n, t);
         return;
     }
+    if id == "__fuzzone" {
+        // verif __fuzzone <ID> <file>...  : run saved fuzz inputs through the same entry point (no sanitizer)
+        std::env::set_var("VERIF_FUZZ_PROP", args.get(2).cloned().unwrap_or_default());
+        for f in &args[3..] {
+            let data = std::fs::read(f).unwrap_or_default();
+            let t = std::time::Instant::now();
+            vh::fuzz::one(&data);
+            eprintln!("{}: {} bytes ok in {:?}", f, data.len(), t.elapsed());
+        }
+        return;
+    }
     if id == "selftest" {
         match selftest() {
             Ok(n) => {
@@ -126,7 +137,7 @@ fn selftest() -> Result<usize, String> {
 }
 
 fn replay_committed(ctx: &Ctx, subs: &[Box<dyn props::common::AnySub>]) {
-    let dir = format!("{}/regress/{}", vh::engine::VERIF_DIR, ctx.id);
+    let dir = format!("{}/regress/{}", vh::engine::verif_dir(), ctx.id);
     let Ok(rd) = std::fs::read_dir(&dir) else { return };
     let mut files: Vec<_> = rd.filter_map(|e| e.ok()).map(|e| e.path()).filter(|p| p.extension().map(|x| x == "json").unwrap_or(false)).collect();
     files.sort();
